@@ -124,7 +124,8 @@ def collect_reads_for_chromosome(sample, chr_id, args):
         if os.path.exists(group_file) and os.path.exists(save_file):
             read_grouper.read_groups.clear()
             for g in open(group_file):
-                read_grouper.read_groups.add(g.strip())
+                # group names are kept as they are (they may begin or end with blanks), only the line end is dropped
+                read_grouper.read_groups.add(g.rstrip("\r\n"))
             alignment_stat_counter = EnumStats(bamstat_file)
             loader = BasicReadAssignmentLoader(save_file)
             while loader.has_next():
